@@ -262,11 +262,29 @@ def list_pop(engine, st, ref, lv, idx, node):
 
 
 def list_insert(engine, st, ref, lv, i, val):
+    """list.insert(i, v).  The new content is a named array described by shift
+    axioms keyed on the OLD array (so that facts about old positions carry over
+    to the shifted positions by instantiation) and on the new one."""
     ln = lv.c[0]
     # python clamps the position
     i = z3.If(i > ln, ln, z3.If(i < 0, z3.If(ln + i < 0, 0, ln + i), i))
+    pos = z3.Const(f"ins!at!{engine.new_id()}", Ty.IntS)
+    st.assume(pos == i)
     p = z3.Int("ins!p")
-    arrs = [z3.Lambda([p], z3.If(p < i, a[p], z3.If(p == i, c, a[p - 1]))) for a, c in zip(lv.c[1:], val.c)]
+    arrs = []
+    for a, c in zip(lv.c[1:], val.c):
+        if not (z3.is_const(a) and a.decl().kind() == z3.Z3_OP_UNINTERPRETED):
+            # name the old content too (it may be a computed array)
+            an = z3.Const(f"ins!old!{engine.new_id()}", a.sort())
+            st.assume(z3.ForAll([p], an[p] == z3.simplify(a[p])))
+            a = an
+        b = z3.Const(f"ins!new!{engine.new_id()}", a.sort())
+        st.assume(b[pos] == c)
+        st.assume(z3.ForAll([p], z3.Implies(p < pos, b[p] == a[p]), patterns=[a[p]]))
+        st.assume(z3.ForAll([p], z3.Implies(p < pos, b[p] == a[p]), patterns=[b[p]]))
+        st.assume(z3.ForAll([p], z3.Implies(p >= pos, b[p + 1] == a[p]), patterns=[a[p]]))
+        st.assume(z3.ForAll([p], z3.Implies(p > pos, b[p] == a[p - 1]), patterns=[b[p]]))
+        arrs.append(b)
     st.heap[ref.id] = V(lv.t, [ln + 1] + arrs)
 
 
